@@ -17,7 +17,6 @@ ASSUMPTIONS = ['integer arithmetic claims are numerical (not decided)']
 
 C = 'mithril_common::entities::signed_entity_config::'
 TP = C + 'SignedEntityConfig::time_point_to_signed_entity'
-FREE = C + 'compute_block_number_to_be_signed'
 TXC = C + 'CardanoTransactionsSigningConfig::compute_block_number_to_be_signed'
 BTC = C + 'CardanoBlocksTransactionsSigningConfig::compute_block_number_to_be_signed'
 SET = 'mithril_common::entities::signed_entity_type::SignedEntityType'
@@ -124,57 +123,45 @@ def run(ctx):
     for vi, vn in ((3, 'CardanoTransactions'), (4, 'CardanoBlocksTransactions')):
         ctx.only_constructors('b', SET, allow, 'SignedEntityType::%s is derived from a chain tip only by time_point_to_signed_entity' % vn, variant=vi,
                               key='constructs:SignedEntityType::%s' % vn)
-    # both configs use the shared formula
+    # the two signing configurations: examined at their exported methods, with the private formula helper(s) spliced in - how the
+    # arithmetic is split between the method and its helper is not the rule's business
+    from engine import origins
+    SUBP = ('*std::ops::arith::Sub*::sub', '*::saturating_sub', '*::checked_sub')
+    DIVP = ('*std::ops::arith::Div*::div', '*std::ops::arith::Rem*::rem')
+    spliced = {}
     for fn in (TXC, BTC):
         f = ctx.try_fn('b', fn)
         if f is None:
             continue
-        cs = [c for c in f.body.calls() if any(glob_match(FREE, n) for n in c.names())]
-        if cs:
-            R.ok('b', 'R3', '%s uses the shared formula' % fn_short(fn), '', f.loc())
-        else:
-            R.violation('b', 'R3', '%s uses the shared formula' % fn_short(fn), 'beacon:shared-formula:%s' % fn_short(fn), '', f.loc())
-        for c in cs:
-            o0 = fn_origins(f, c.args[0], 'adapters')
-            o1 = fn_origins(f, c.args[1], 'adapters')
-            o2 = fn_origins(f, c.args[2], True)
-            ok = has(o0, 'p#2') and has(o1, 'pty:*.security_parameter') and has(o2, 'pty:*.step')
-            # the security parameter reaches the formula as configured: not rounded, scaled or otherwise recomputed
-            d1 = fn_origins(f, c.args[1], False)
-            recomputed = sorted(o for o in d1 if o.startswith('call:') and not any(o.endswith(x) for x in ('::clone', '::deref', '::borrow', '::as_ref', '::to_owned')))
-            inst_sp = '%s: the security parameter reaches the formula unmodified' % fn_short(fn)
-            if has(d1, 'pty:*.security_parameter') and not recomputed:
-                R.ok('c', 'R5', inst_sp, '', f.loc())
-            else:
-                R.violation('c', 'R5', inst_sp, 'beacon:security-parameter:%s' % fn_short(fn), 'the margin handed to the formula is recomputed by %s: the selected '
-                            'block can exceed tip - security_parameter' % (recomputed[:3] or sorted(d1)[:3]), f.loc())
-            if fn == TXC:
-                ok = ok and has(o2, 'call:std::cmp::max') and has(o2, 'call:*BlockRange::from_block_number')
-            inst = '%s: formula(tip, self.security_parameter, %s)' % (fn_short(fn), 'max(range_start(step), LENGTH)' if fn == TXC else 'self.step')
-            if ok:
-                R.ok('c', 'R5', inst, '', f.loc())
-            else:
-                R.violation('c', 'R5', inst, 'beacon:formula-args:%s' % fn_short(fn), '', f.loc())
-    # ---- (c) the formula (stated on data flow, not on one way of writing the rounding)
-    ff = ctx.try_fn('c', FREE)
-    if ff is not None:
-        from engine import origins
-        body = ff.body
-        SUBP = ('*std::ops::arith::Sub*::sub', '*::saturating_sub', '*::checked_sub')
-        DIVP = ('*std::ops::arith::Div*::div', '*std::ops::arith::Rem*::rem')
-        raw = []
-        for b in body.blocks:
-            for (line, pl, rv) in b.stmts:
-                if rv[0] == 'bin' and rv[1] in ('Sub', 'SubWithOverflow', 'Div', 'Rem', 'Mul', 'MulWithOverflow', 'Add', 'AddWithOverflow'):
-                    raw.append('%s@L%d' % (rv[1], line))
+        body = f.body
+        spliced[fn] = {x.name for x in getattr(f, 'inlined_fns', [])}
         subs = [c for c in body.calls() if any(glob_match(p_, n) for n in c.names() for p_ in SUBP)]
         divs = [c for c in body.calls() if any(glob_match(p_, n) for n in c.names() for p_ in DIVP)]
-        margin = [c for c in subs if len(c.args) == 2 and has(fn_origins(ff, c.args[0], 'adapters'), 'p#1') and has(fn_origins(ff, c.args[1], 'adapters'), 'p#2')]
+        margin = [c for c in subs if len(c.args) == 2 and has(fn_origins(f, c.args[0], 'adapters'), 'p#2') and
+                  has(origins(body, c.args[1], False), 'pty:*.security_parameter')]
+        # (1) the security parameter reaches the subtraction as configured
+        inst_sp = '%s: the security parameter reaches the formula unmodified' % fn_short(fn)
+        sp_any = [c for c in subs if len(c.args) == 2 and has(fn_origins(f, c.args[0], 'adapters'), 'p#2') and has(fn_origins(f, c.args[1], True), 'pty:*.security_parameter')]
+        rec = []
+        for c in sp_any:
+            d1 = origins(body, c.args[1], False)
+            rec += sorted(o for o in d1 if o.startswith('call:') and not any(o.endswith(x) for x in ('::clone', '::deref', '::borrow', '::as_ref', '::to_owned')))
+        if margin and not rec:
+            R.ok('c', 'R5', inst_sp, '', f.loc())
+        else:
+            R.violation('c', 'R5', inst_sp, 'beacon:security-parameter:%s' % fn_short(fn), 'the margin subtracted from the tip is recomputed by %s: the selected '
+                        'block can exceed tip - security_parameter' % (rec[:3] or 'nothing derived from self.security_parameter'), f.loc())
+        # (2) arithmetic shape
         problems = []
+        raw = []
+        for b_ in body.blocks:
+            for (line, pl, rv) in b_.stmts:
+                if rv[0] == 'bin' and rv[1] in ('Sub', 'SubWithOverflow', 'Div', 'Rem', 'Mul', 'MulWithOverflow', 'Add', 'AddWithOverflow'):
+                    raw.append('%s@L%d' % (rv[1], line))
         if raw:
-            problems.append('raw integer %s in the formula (overflow / division by zero panics)' % raw)
+            problems.append('raw integer %s (overflow / division by zero panics)' % raw[:4])
         if not margin:
-            problems.append('no `block_number - security_parameter` subtraction')
+            problems.append('no saturating `block_number - security_parameter`')
         for c in subs:
             if any(glob_match('*::saturating_sub', n) or glob_match('*::checked_sub', n) for n in c.names()):
                 continue
@@ -182,31 +169,43 @@ def run(ctx):
             seen, ext = closure(ws, tgt)
             if not any(glob_match('*::saturating_sub', n) for n in ext):
                 problems.append('the subtraction %s (line %s) does not end in saturating_sub' % (fn_short(c.best()), c.line))
-        # every returned value has passed the margin subtraction: cut the slice at it, the tip must not be reachable
         if margin:
             mids = {id(c) for c in margin}
             for l in sorted(body.ret_carriers()):
                 og = origins(body, l, True, call_filter=lambda c: id(c) not in mids)
-                if has(og, 'p#1') or has(og, 'p#1.*'):
+                if has(og, 'p#2'):
                     problems.append('the chain tip reaches the returned value without passing `tip - security_parameter` (a path returns a value above the margin)')
                     break
             og_all = set()
             for l in body.ret_carriers():
                 og_all |= origins(body, l, True)
-            if not has(og_all, 'p#3') and not has(og_all, 'p#3.*'):
-                problems.append('the step does not influence the result')
-        # a division / remainder by the step cannot see a zero divisor
+            if not has(og_all, 'pty:*.step'):
+                problems.append('the configured step does not influence the result')
         for c in divs:
-            o1 = fn_origins(ff, c.args[1], True)
+            o1 = fn_origins(f, c.args[1], True)
             mx = [m for m in body.calls() if any(glob_match('std::cmp::max', n) or glob_match('*::Ord>::max', n) or glob_match('std::cmp::Ord::max', n) for n in m.names())
-                  and any(body.const_of(a) == 1 or has(fn_origins(ff, a, True), 'const:1*') or has(fn_origins(ff, a, True), 'adt:*BlockNumber*') for a in m.args)]
+                  and any(body.const_of(a) == 1 or has(fn_origins(f, a, True), 'const:1*') or has(fn_origins(f, a, True), 'adt:*BlockNumber*') for a in m.args)]
             if not ((has(o1, 'call:std::cmp::max') or has(o1, 'call:*::max')) and mx):
                 problems.append('the divisor of %s (line %s) is not floored at 1 (step = 0 would panic)' % (fn_short(c.best()), c.line))
-        inst = 'compute_block_number_to_be_signed: every result passes the saturating `tip - security_parameter`; no division by a zero step'
+        if fn == TXC:
+            # the transaction step is aligned on block ranges and never below one range
+            step_og = set()
+            for c in divs:
+                step_og |= fn_origins(f, c.args[1], True)
+            floor_len = has(step_og, 'call:std::cmp::max') or any(has(g_.a_orig | g_.b_orig, 'call:*BlockRange::from_block_number') for g_ in __import__('engine').find_guards(body))
+            if not (has(step_og, 'call:*BlockRange::from_block_number') and floor_len):
+                problems.append('the transaction step is not max(range_start(step), range length)')
+        inst = '%s: every result passes the saturating `tip - security_parameter`, rounded down by the (floored) step' % fn_short(fn)
         if problems:
-            R.violation('c', 'R7', inst, 'beacon:formula', '; '.join(problems), ff.loc())
+            R.violation('c', 'R7', inst, 'beacon:formula:%s' % fn_short(fn), '; '.join(problems), f.loc())
         else:
-            R.ok('c', 'R7', inst, '%d subtraction(s), %d division(s)' % (len(subs), len(divs)), ff.loc())
+            R.ok('c', 'R7', inst, '%d subtraction(s), %d division(s)' % (len(subs), len(divs)), f.loc())
+    if len(spliced) == 2:
+        shared = spliced[TXC] & spliced[BTC]
+        if shared:
+            R.ok('b', 'R3', 'both signing configurations round with the same private formula', ', '.join(sorted(fn_short(x) for x in shared)))
+        else:
+            R.violation('b', 'R3', 'both signing configurations round with the same private formula', 'beacon:shared-formula', 'no common helper: %s' % spliced, None)
     tx = ctx.try_fn('c', TXC)
     if tx is not None:
         subs = [c for c in tx.body.calls() if any(glob_match('*std::ops::arith::Sub*::sub', n) for n in c.names())]
